@@ -63,103 +63,96 @@ def run(index: RepoIndex, rep) -> None:
              'operands (no in-place update, no cache)', floor=15)
 
     f = 'gym_gridverse/geometry.py'
-    fn_mul = g.omul
-    # ---- R1 table
-    tline = index.table(GEOM, '_orientation_rotations').lineno
-    rep.check(len(g.rot) == len(O) ** 2 and not g.rot_dups
-              and all((a, b) in g.rot for a in O for b in O),
-              'C18.R1', f, '_orientation_rotations', tline, '_orientation_rotations',
-              f'rotation table is not total/unique over {O} x {O} '
-              f'({len(g.rot)} entries, duplicates {g.rot_dups})')
-    if not all((a, b) in g.rot for a in O for b in O):
+    fn_mul = gi.method('Orientation', '__mul__')
+    fn_neg = gi.method('Orientation', '__neg__')
+    # ---- R1 the orientation product (denotation of Orientation.__mul__ on Orientations)
+    ml = fn_mul.node.lineno
+    total = all(g.rot.get((a, b)) in O for a in O for b in O)
+    rep.check(total, 'C18.R1', f, 'Orientation.__mul__', ml, 'orientation * orientation',
+              f'orientation product is not total over {O} x {O}: undefined at '
+              f'{[k for k in sorted(g.rot) if g.rot[k] not in O][:4]}')
+    if not total:
         return
-    nline = index.table(GEOM, '_orientation_neg').lineno
-    rep.check(set(g.neg) == set(O), 'C18.R1', f, '_orientation_neg', nline, '_orientation_neg',
-              'negation table does not cover every orientation')
+    for name in ('_orientation_rotations', '_orientation_neg', '_position_from_orientation'):
+        d = g.table_dups(name)
+        rep.check(not d, 'C18.R1', f, name, g.line_of(name), name,
+                  f'{name} lists the key(s) {d} twice: one of the entries is dead')
+    negtotal = all(g.neg.get(a) in O for a in O)
+    rep.check(negtotal, 'C18.R1', f, 'Orientation.__neg__', fn_neg.node.lineno,
+              '-orientation', 'negation is not defined for every orientation')
     for a in O:
         rep.check(g.rot[('FORWARD', a)] == a and g.rot[(a, 'FORWARD')] == a,
-                  'C18.R1', f, '_orientation_rotations', tline,
+                  'C18.R1', f, 'Orientation.__mul__', ml,
                   f'(F, {a}) / ({a}, F)', f'FORWARD is not a two-sided identity for {a}',
                   f'identity {a}')
-        if a in g.neg:
+        if g.neg.get(a) in O:
             rep.check(g.rot[(a, g.neg[a])] == 'FORWARD' and g.rot[(g.neg[a], a)] == 'FORWARD',
-                      'C18.R1', f, '_orientation_neg', nline, f'_orientation_neg[{a}]',
+                      'C18.R1', f, 'Orientation.__neg__', fn_neg.node.lineno, f'-{a}',
                       f'-{a} = {g.neg[a]} is not a two-sided inverse of {a}', f'inverse {a}')
     for a, b, c in itertools.product(O, repeat=3):
         rep.check(g.rot[(g.rot[(a, b)], c)] == g.rot[(a, g.rot[(b, c)])],
-                  'C18.R1', f, '_orientation_rotations', tline, f'({a}*{b})*{c}',
-                  f'rotation table is not associative at ({a}, {b}, {c})', f'assoc {a},{b},{c}')
+                  'C18.R1', f, 'Orientation.__mul__', ml, f'({a}*{b})*{c}',
+                  f'orientation product is not associative at ({a}, {b}, {c})',
+                  f'assoc {a},{b},{c}')
     gen = 'RIGHT'
     powers = [gen]
     for _ in range(3):
         powers.append(g.rot[(powers[-1], gen)])
     rep.check(len(set(powers)) == 4 and powers[3] == 'FORWARD' and powers[1] == 'BACKWARD',
-              'C18.R1', f, '_orientation_rotations', tline, 'powers of RIGHT',
+              'C18.R1', f, 'Orientation.__mul__', ml, 'powers of RIGHT',
               f'RIGHT does not generate a cyclic group of order 4 with R*R = BACKWARD: {powers}',
               'cyclic')
     rep.check(g.rot[('LEFT', 'RIGHT')] == 'FORWARD' and g.rot[('LEFT', 'LEFT')] == 'BACKWARD',
-              'C18.R1', f, '_orientation_rotations', tline, 'LEFT*RIGHT, LEFT*LEFT',
+              'C18.R1', f, 'Orientation.__mul__', ml, 'LEFT*RIGHT, LEFT*LEFT',
               'LEFT is not the inverse quarter turn of RIGHT', 'left-right')
-    commutative = all(g.rot[(a, b)] == g.rot[(b, a)] for a in O for b in O)
-    for o in O:
-        e = g.omul_orient_expr[o]
-        ok = e == '_orientation_rotations[self, other]' or \
-            (commutative and e == '_orientation_rotations[other, self]')
-        rep.check(ok, 'C18.R1', f, 'Orientation.__mul__', fn_mul.node.lineno, e,
-                  f'orientation product for self={o} is `{e}`, not the rotation table at '
-                  f'(self, other)', f'mul uses table {o}')
-    nf = index.func(GEOM, 'Orientation.__neg__')
-    nb = nf.body()
-    rep.check(len(nb) == 1 and isinstance(nb[0], ast.Return)
-              and src(nb[0].value) == '_orientation_neg[self]',
-              'C18.R1', f, 'Orientation.__neg__', nf.node.lineno, src(nb[-1]),
-              'Orientation.__neg__ does not return _orientation_neg[self]', 'neg uses table')
+    for a in O:
+        # foreign operands are refused, not mapped to a heading
+        try:
+            r = gi.mul(('O', a), ('X', 'foreign'))
+        except AnalysisError:
+            r = None
+        rep.check(r is None or r[0] == 'X', 'C18.R1', f, 'Orientation.__mul__', ml,
+                  f'{a} * <other type>', f'{a} * <foreign operand> yields {r}', f'foreign {a}')
 
     # ---- R2 matrices
     for o in O:
         m0, m1 = g.M[o]
         rep.check(m0.k == 0 and m1.k == 0 and m0.symbols() <= {'y', 'x'}
                   and m1.symbols() <= {'y', 'x'},
-                  'C18.R2', f, 'Orientation.__mul__', fn_mul.node.lineno,
+                  'C18.R2', f, 'Orientation.__mul__', ml,
                   f'{o} * Position -> ({m0}, {m1})', f'{o} * position is not linear',
                   f'linear {o}')
         m = g.mat(o)
         rep.check(mm(m, tuple(zip(*m))) == I2 and m[0][0] * m[1][1] - m[0][1] * m[1][0] == 1,
-                  'C18.R2', f, 'Orientation.__mul__', fn_mul.node.lineno,
+                  'C18.R2', f, 'Orientation.__mul__', ml,
                   f'{o} * Position -> ({m0}, {m1})',
                   f'matrix of {o} is {m}: not a rotation (orthogonal, determinant 1)',
                   f'rotation matrix {o}')
-    rep.check(g.mat('FORWARD') == I2, 'C18.R2', f, 'Orientation.__mul__', fn_mul.node.lineno,
+    rep.check(g.mat('FORWARD') == I2, 'C18.R2', f, 'Orientation.__mul__', ml,
               'FORWARD * Position', 'FORWARD does not act as the identity on positions',
               'M(F)=I')
     for a in O:
         for b in O:
             rep.check(mm(g.mat(a), g.mat(b)) == g.mat(g.rot[(a, b)]),
-                      'C18.R2', f, 'Orientation.__mul__', fn_mul.node.lineno,
+                      'C18.R2', f, 'Orientation.__mul__', ml,
                       f'M({a})·M({b}) vs M({g.rot[(a, b)]})',
                       f'action on positions is not a homomorphism at ({a}, {b}): '
                       f'M({a})·M({b}) = {mm(g.mat(a), g.mat(b))} but M({g.rot[(a, b)]}) = '
                       f'{g.mat(g.rot[(a, b)])}', f'homomorphism {a},{b}')
-    dline = index.table(GEOM, '_position_from_orientation').lineno
-    rep.check(set(g.delta) == set(O), 'C18.R2', f, '_position_from_orientation', dline,
-              '_position_from_orientation', 'heading delta table does not cover every orientation')
-    if set(g.delta) == set(O):
-        rep.check(g.delta['FORWARD'] == (-1, 0), 'C18.R2', f, '_position_from_orientation',
+    fo = gi.method('Position', 'from_orientation')
+    dline = fo.node.lineno
+    covered = all(g.delta.get(o) is not None for o in O)
+    rep.check(covered, 'C18.R2', f, 'Position.from_orientation', dline,
+              'Position.from_orientation', 'heading delta is not defined for every orientation')
+    if covered:
+        rep.check(g.delta['FORWARD'] == (-1, 0), 'C18.R2', f, 'Position.from_orientation',
                   dline, f'F -> {g.delta["FORWARD"]}',
                   'FORWARD is not one cell up (y decreases), as documented', 'delta F')
         for o in O:
             rep.check(g.delta[o] == mv(g.mat(o), g.delta['FORWARD']),
-                      'C18.R2', f, '_position_from_orientation', dline, f'{o} -> {g.delta[o]}',
+                      'C18.R2', f, 'Position.from_orientation', dline, f'{o} -> {g.delta[o]}',
                       f'heading delta of {o} is {g.delta[o]}, expected M({o})·delta(F) = '
                       f'{mv(g.mat(o), g.delta["FORWARD"])}', f'delta {o}')
-    fo = index.func(GEOM, 'Position.from_orientation')
-    w = walk_function(fo.node)
-    rets = [src(e.value) for e in w.events if e.kind == 'return' and e.value is not None]
-    rep.check(rets == ['_position_from_orientation[orientation]'] or
-              rets == [f'_position_from_orientation[{fo.node.args.args[0].arg}]'],
-              'C18.R2', f, 'Position.from_orientation', fo.node.lineno, '; '.join(rets),
-              'Position.from_orientation does not return the table entry of its argument',
-              'from_orientation uses table')
 
     # ---- R3 area image
     for o in O:
@@ -172,30 +165,34 @@ def run(index: RepoIndex, rep) -> None:
                 (-Aff.sym(names[1]), -Aff.sym(names[0]))
             got = g.AR[o][axis]
             rep.check(tuple(got) == exp, 'C18.R3', f, 'Orientation.__mul__',
-                      fn_mul.node.lineno, f'{o} * Area axis {"yx"[axis]} -> {got}',
+                      ml, f'{o} * Area axis {"yx"[axis]} -> {got}',
                       f'{o} * area: {"yx"[axis]}-interval is {got}, the image of the box under '
                       f'M({o}) is {exp}', f'area {o} axis {axis}')
 
     # ---- R4 position ops
-    po = g.pos_ops
     S = Aff.sym
-    pl = index.func(GEOM, 'Position.__add__').node.lineno
-    rep.check(po['add_pos'] == (S('sy') + S('oy'), S('sx') + S('ox')), 'C18.R4', f,
-              'Position.__add__', pl, f'{po["add_pos"]}', 'Position + Position is not componentwise')
-    rep.check(po['add_area'] == ((S('sy') + S('ymin'), S('sy') + S('ymax')),
-                                 (S('sx') + S('xmin'), S('sx') + S('xmax'))), 'C18.R4', f,
-              'Position.__add__', pl, f'{po["add_area"]}',
+    pl = gi.method('Position', '__add__').node.lineno
+    sp, op_ = P('sy', 'sx'), P('oy', 'ox')
+    got = gi.add(sp, op_)
+    rep.check(got == ('P', (S('sy') + S('oy'), S('sx') + S('ox'))), 'C18.R4', f,
+              'Position.__add__', pl, f'{got}', 'Position + Position is not componentwise')
+    got = gi.add(sp, A())
+    rep.check(got == ('A', ((S('sy') + S('ymin'), S('sy') + S('ymax')),
+                            (S('sx') + S('xmin'), S('sx') + S('xmax')))), 'C18.R4', f,
+              'Position.__add__', pl, f'{got}',
               'Position + Area does not shift both intervals by the position')
-    rep.check(po['sub_pos'] == (S('sy') - S('oy'), S('sx') - S('ox')), 'C18.R4', f,
-              'Position.__sub__', index.func(GEOM, 'Position.__sub__').node.lineno,
-              f'{po["sub_pos"]}', 'Position - Position is not componentwise')
-    rep.check(po['neg_pos'] == (-S('sy'), -S('sx')), 'C18.R4', f, 'Position.__neg__',
-              index.func(GEOM, 'Position.__neg__').node.lineno, f'{po["neg_pos"]}',
+    got = gi.p_sub_p(sp, op_)
+    rep.check(got == ('P', (S('sy') - S('oy'), S('sx') - S('ox'))), 'C18.R4', f,
+              'Position.__sub__', gi.method('Position', '__sub__').node.lineno,
+              f'{got}', 'Position - Position is not componentwise')
+    got = gi.neg(sp)
+    rep.check(got == ('P', (-S('sy'), -S('sx'))), 'C18.R4', f, 'Position.__neg__',
+              gi.method('Position', '__neg__').node.lineno, f'{got}',
               '-Position is not componentwise')
 
     # ---- R5 transforms
-    tl = index.func(GEOM, 'Transform.__mul__').node.lineno
-    nl = index.func(GEOM, 'Transform.__neg__').node.lineno
+    tl = gi.method('Transform', '__mul__').node.lineno
+    nl = gi.method('Transform', '__neg__').node.lineno
     zero = (Aff.const(0), Aff.const(0))
     for o1 in O:
         T1 = ('T', P('py', 'px'), ('O', o1))
@@ -203,30 +200,38 @@ def run(index: RepoIndex, rep) -> None:
         v = P('vy', 'vx')
         got = gi.mul(T1, v)
         exp = gi.p_add_p(T1[1], gi.o_mul_p(T1[2], v))
-        rep.check(got == exp, 'C18.R5', f, 'Transform.__mul__', tl, g.tmul['Position'],
+        rep.check(got == exp, 'C18.R5', f, 'Transform.__mul__', tl, 'transform * position',
                   f'transform * position with heading {o1} gives {got[1]}, expected p + o·x = '
                   f'{exp[1]}', f'act position {o1}')
         ar = A()
         got = gi.mul(T1, ar)
         exp = gi.p_add_a(T1[1], gi.o_mul_a(T1[2], ar))
-        rep.check(got == exp, 'C18.R5', f, 'Transform.__mul__', tl, g.tmul['Area'],
+        rep.check(got == exp, 'C18.R5', f, 'Transform.__mul__', tl, 'transform * area',
                   f'transform * area with heading {o1} gives {got[1]}, expected {exp[1]}',
                   f'act area {o1}')
+        for o2 in O:
+            got = gi.mul(T1, ('O', o2))
+            rep.check(got == gi.o_mul_o(T1[2], ('O', o2)), 'C18.R5', f, 'Transform.__mul__', tl,
+                      'transform * orientation',
+                      f'transform * orientation ({o1}, {o2}) gives {got}, expected o1·o2',
+                      f'act orientation {o1},{o2}')
         # inverse
         inv = gi.neg(T1)
         for a, b, what in ((T1, inv, 'T * -T'), (inv, T1, '-T * T')):
-            r = gi.mul(a, b)
+            r = gi.mul(a, b) if inv[0] == 'T' else inv
             rep.check(r[0] == 'T' and r[1][1] == zero and r[2] == ('O', 'FORWARD'),
-                      'C18.R5', f, 'Transform.__neg__', nl, g.tneg,
+                      'C18.R5', f, 'Transform.__neg__', nl, '-transform',
                       f'{what} with heading {o1} is {r}, not the identity transform',
                       f'inverse {what} {o1}')
         for o2 in O:
             T2 = ('T', P('qy', 'qx'), ('O', o2))
             got = gi.mul(T1, T2)
             exp = ('T', gi.p_add_p(T1[1], gi.o_mul_p(T1[2], T2[1])), gi.o_mul_o(T1[2], T2[2]))
-            rep.check(got == exp, 'C18.R5', f, 'Transform.__mul__', tl, g.tmul['Transform'],
+            rep.check(got == exp, 'C18.R5', f, 'Transform.__mul__', tl, 'transform * transform',
                       f'transform product ({o1}, {o2}) is {got}, expected (p1 + o1·p2, o1·o2) = '
                       f'{exp}', f'compose {o1},{o2}')
+            if got[0] != 'T':
+                continue
             # action compatibility (T1 T2) v = T1 (T2 v)
             rep.check(gi.mul(gi.mul(T1, T2), v) == gi.mul(T1, gi.mul(T2, v)),
                       'C18.R5', f, 'Transform.__mul__', tl, '(T1*T2)*v',
@@ -246,13 +251,13 @@ def run(index: RepoIndex, rep) -> None:
     for o in O:
         Tt = ('T', P('py', 'px'), ('O', o))
         try:
-            r = gi.eval(ast.parse(g.agent_front, mode='eval').body, {'self': Tt})
+            r = gi.call(af, {af.node.args.args[0].arg: Tt})
             d = g.delta[o]
             ok = r == ('P', (Aff.sym('py') + d[0], Aff.sym('px') + d[1]))
         except AnalysisError:
             r, ok = None, False
         rep.check(ok, 'C18.R5', 'gym_gridverse/agent.py', 'Agent.front', af.node.lineno,
-                  g.agent_front, f'Agent.front with heading {o} is {r}, not one cell ahead',
+                  'Agent.front', f'Agent.front with heading {o} is {r}, not one cell ahead',
                   f'front {o}')
 
     # ---- R6 grid rotations
@@ -302,14 +307,24 @@ def run(index: RepoIndex, rep) -> None:
                       f'rotation by {g.rot[(a, b)]} shows [{mc.r}][{mc.c}]',
                       f'compose {a},{b}')
     gm = index.func(GRID, 'Grid.__mul__')
-    w = walk_function(gm.node)
-    rets = [src(w.expand(e.value)) for e in w.events
-            if e.kind == 'return' and e.value is not None]
-    other = gm.node.args.args[1].arg
-    rep.check(f'Grid(_grid_rotation_functions[{other}](self.objects))' in rets,
-              'C18.R6', gf, 'Grid.__mul__', gm.node.lineno, '; '.join(rets),
-              'Grid.__mul__ does not return Grid(<rotation function of the orientation>'
-              '(self.objects))', 'Grid.__mul__ applies table')
+    me, other = [a.arg for a in gm.node.args.args[:2]]
+    for o in O:
+        if o not in g.grid_rot_name:
+            continue
+        try:
+            got = gi.call(gm, {me: ('G', 'self'), other: ('O', o)})
+        except AnalysisError as e:
+            got = ('X', str(e))
+        exp = ('C', 'Grid', (('C', g.grid_rot_name[o], (('X', 'self.objects'),)),))
+        rep.check(got == exp, 'C18.R6', gf, 'Grid.__mul__', gm.node.lineno, f'grid * {o}',
+                  f'Grid.__mul__ with {o} yields {got}, not Grid(<rotation function of {o}>'
+                  f'(self.objects))', f'Grid.__mul__ applies table {o}')
+    try:
+        got = gi.call(gm, {me: ('G', 'self'), other: ('X', 'foreign')})
+    except AnalysisError as e:
+        got = ('X', str(e))
+    rep.check(got[0] == 'X', 'C18.R6', gf, 'Grid.__mul__', gm.node.lineno, 'grid * <other>',
+              f'Grid.__mul__ with a foreign operand yields {got}', 'Grid.__mul__ foreign')
 
     # ---- R7 get_next_position (denotation for all headings x actions)
     from .c08 import _next_position
